@@ -15,6 +15,9 @@ CLAIMED = {
  "C05": dict(text="The real ForceMatrix.solve runs on symbolic matrices; what reaches inv / nnls / lsq_linear / lmfit is captured at the library stub and compared with the definition of the augmented problem; path logic (square/regular/negative) is explored by forking; optimality is reduced to the back-ends' KKT contracts and the multiplier sign.",
              note="Back-ends are trusted to return a KKT point (documented optimality); inverse modelled by its defining equation; rounding as a bounded perturbation; T3/K3 (T4, K3-n0 thorough) system shapes.",
              ref="3/C05"),
+ "C06": dict(text="Transform parameters are symbols next to the geometry: the real tangent code is run on an arc and on its translated / scaled / rotated / reflected image, the curvature and area-sign code likewise, the adimensional velocity right-hand side on two series differing in the time or length unit, and the optimum of the augmented problem is tested against the optimality conditions of the rotated problem; each comparison is an SMT query over the whole continuous group.",
+             note="3-point arcs (5 thorough); frame-dependent regions (per-component sign forcing, multiplier column) are recorded findings split off by the solver; pressures only through curvature and area sign; tolerance-by-conditioning clause outside (exact arithmetic).",
+             ref="3/C06"),
  "C10": dict(text="Two-frame series with symbolic tangents and uninterpreted back-ends: store contents after a solve are compared term-by-term with the back-end result, and every bounded call history (symbolic call choices) is compared with a fresh object.",
              note="Histories: 4 warm-up builds + 1 (quick) / 2 (thorough) free calls + canonical calls; T3 (K3 thorough); tangent stub contract; back-ends deterministic.",
              ref="3/C10"),
